@@ -50,12 +50,15 @@ C07  Name obfuscation is a consistent, capture-free renaming — property theore
                                  `Obfuscator.resolve` answers per occurrence (`rhoFin`) satisfy `condProgram` and `isoCond`.
   excluded / kf07*_excluded      the three recorded deviation classes as structural predicates on the tree (Proofs/ObfExcluded.lean) with
                                  kernel-evaluated witnesses: the witness programs are excluded, not aligned and their binding structure is NOT preserved.
-  capture_free_of_walk_facts     THE LINK "invariants + alignment ⇒ same resolution", for SIMPLE programs (function and global scopes only: no catch
-                                 clause, no label, no named function expression): if the WALK FACTS hold (`factsProgram`, Proofs/ObfFacts.lean —
+  capture_free_of_walk_facts     THE LINK "invariants + alignment ⇒ same resolution", for SIMPLE programs (global, function and catch scopes: no
+                                 label, no named function expression): if the WALK FACTS hold (`factsProgram`, Proofs/ObfFacts.lean —
                                  decidable book-keeping only: every function node has its own scope record under the record of the enclosing
-                                 function with exactly the function's parameters and hoisted declarations as `local_declared_symbols`; every
-                                 Identifier is registered in the record of its innermost function; a reference is a key of that scope's
-                                 `referenced_symbols`) and no generated name is the word `arguments`, then `condProgram` holds for the obfuscator's
+                                 scope with exactly the function's parameters and hoisted declarations as `local_declared_symbols`; every catch
+                                 clause has its own catch record (for its parameter) under the record of the enclosing scope; every
+                                 Identifier is registered in the record of its innermost function or catch clause; a reference is a key of that
+                                 scope's `referenced_symbols`; a `var` / function declaration is declared by the innermost function record and
+                                 is not spelled like a catch parameter in between — the complement of KF-07a) and no generated name is the word
+                                 `arguments`, then `condProgram` holds for the obfuscator's
                                  renaming: every declaration and reference is renamed by its own environment record and NO reference is captured.
                                  Proved from `remap_injective_visible`, the table facts, the leak invariant and declared ⊆ referenced
                                  (`finalize_chainGood`, `lookup_link`): the replacement tables never enter the hypotheses.
@@ -70,7 +73,8 @@ STILL MISSING for `aligned_of_not_excluded`:
   (i)  the walk facts themselves from the Gen.Defs-driven walk (`factsProgram` is evaluated per program: driver `facts`, obligation in the
        check) — needs a per-node-kind analysis of the rule interpreter (which attributes a definition walks, where PushScope/PopScope sit)
        and a tree-in-vocabulary hypothesis;
-  (iii) the same link for catch clauses, labels and named function expressions (environment records without / with shared scopes).
+  (iii) the same link for labels and named function expressions (environment records without / with shared scopes); catch clauses are
+       covered (`Al.catch`, `lookup_link`, `decl_link` in Proofs/ObfLink.lean).
   The check evaluates `alignedOf` on every generated program not in `excluded` (obligation `model: not excluded implies aligned`).
 -/
 import CalmVerif.Proofs.ObfInjTree
@@ -384,6 +388,16 @@ theorem arguments_regression :
 
 /-- the walk facts hold on the closure-heavy program (a simple program), for both flag settings -/
 theorem ok_program_facts : factsOf (minifyFlags false false) okP = some true ∧ factsOf (minifyFlags true true) okP = some true := by
+  decide +kernel
+
+/-- `function f(x){try{x()}catch(e){var y=e;return function(){return e+y+x}}}` -/
+def catchP : Val := (.node "ES5Program" [("children", (.list [(.node "FuncDecl" [("elements", (.list [(.node "Try" [("catch", (.node "Catch" [("elements", (.node "Block" [("children", (.list [(.node "VarStatement" [("children", (.list [(.node "VarDecl" [("identifier", (.node "Identifier" [("value", (.str "y"))])), ("initializer", (.node "Identifier" [("value", (.str "e"))]))])]))]), (.node "Return" [("expr", (.node "FuncExpr" [("elements", (.list [(.node "Return" [("expr", (.node "BinOp" [("left", (.node "BinOp" [("left", (.node "Identifier" [("value", (.str "e"))])), ("op", (.str "+")), ("right", (.node "Identifier" [("value", (.str "y"))]))])), ("op", (.str "+")), ("right", (.node "Identifier" [("value", (.str "x"))]))]))])])), ("identifier", .none), ("parameters", (.list []))]))])]))])), ("identifier", (.node "Identifier" [("value", (.str "e"))]))])), ("fin", .none), ("statements", (.node "Block" [("children", (.list [(.node "ExprStatement" [("expr", (.node "FunctionCall" [("args", (.node "Arguments" [("items", (.list []))])), ("identifier", (.node "Identifier" [("value", (.str "x"))]))]))])]))]))])])), ("identifier", (.node "Identifier" [("value", (.str "f"))])), ("parameters", (.list [(.node "Identifier" [("value", (.str "x"))])]))])]))])
+
+/-- the walk facts hold on a program with a catch clause (a `var` and a closure inside the catch block), for both flag settings;
+it is not excluded, aligned, and its binding structure is preserved -/
+theorem catch_program_facts : factsOf (minifyFlags false false) catchP = some true ∧
+    factsOf (minifyFlags true true) catchP = some true ∧ excluded true catchP = false ∧
+    alignedOf (minifyFlags true true) catchP = some true ∧ bindingPreserved (minifyFlags true true) catchP = some true := by
   decide +kernel
 
 /-! ### the hypotheses are satisfiable -/
